@@ -13,7 +13,7 @@ func init() {
 		Level:     "fault_enumeration",
 		Technique: "runtime monitor: producer log of Manager.Send vs consumer logs of fake Alertmanagers (Options.Do), reference FIFO queue in lockstep scenarios, interleaving-independent order/conservation laws in free-running scenarios, injected request failures, set changes and Stop",
 		LevelText: "Generated scenarios drive the real notifier.Manager (ApplyConfig, Run, Send, Stop) with fake Alertmanagers behind Options.Do; request failures (HTTP 500, transport error), logical latency, queue overflow, Alertmanager-set changes (target-group updates, configuration reloads) and Stop are injected at PRNG-chosen points. Lockstep scenarios serialise the steps using the fake's gate and the observe point notifier.sendloop.idle, so a reference FIFO queue (capacity bound, oldest dropped first, consumer takes any non-empty prefix up to the batch maximum) decides every single request, the counters at every step boundary and the drain on Stop exactly. Free-running scenarios let concurrent producers, a set changer and Stop race (also under -race) and check what holds under every interleaving: order consistent with the happens-before order of the Send calls, no duplicate or foreign alert, batch bound, no loss unless an overflow was possible, no loss among alerts that cannot have been the oldest of a full queue, dropped/errors counters covering every loss at a logical quiescent point, every alert whose Send returned before Stop attempted before Run returns when draining. Held on the observed scenarios only.",
-		LevelNote: "Reductions against the planned monitor: (1) the conservation law is 'every loss is covered by dropped_total (overflow + failed requests) and errors_total covers failed requests' because the notifier counts a failed request in both counters, so the planned sum received+dropped+errors would double count; counters above the reference are tolerated (the statement only demands that losses are counted). (2) Alertmanagers removed by a set change or configuration change are checked for order, duplicates and batch bound only. (3) In free-running scenarios quiescence is established with a sentinel alert (newest of every queue) answered and the loop back at notifier.sendloop.idle instead of the queue-length gauge, which has a window between taking a batch and handing it to Do. (4) No httptest variant. Trusted: JSON payload ids identify alerts; the fake's entry order is the order of reception.",
+		LevelNote: "Reductions against the planned monitor: (1) the conservation law is 'every loss is covered by dropped_total (overflow + failed requests) and errors_total covers failed requests' because the notifier counts a failed request in both counters, so the planned sum received+dropped+errors would double count; counters above the reference are tolerated (the statement only demands that losses are counted). (2) Alertmanagers removed by a set change or configuration change are checked for order, duplicates and batch bound only. (3) In free-running scenarios quiescence is established with a sentinel alert (newest of every queue) answered and the loop back at notifier.sendloop.idle instead of the queue-length gauge, which has a window between taking a batch and handing it to Do. (4) No httptest variant. (5) Around an Alertmanager removal or Stop the lockstep harness lets go of the requests it holds after a 150 ms patience (a schedule choice only, so that a notifier that waits for its send loops is not dead-locked by the harness) and checks what arrives afterwards as an ordered, duplicate-free subset of the reference queue instead of exact prefixes; the drain check (everything queued at Stop attempted before Run returns) stays exact. Two known findings share one root cause (stop() drains without joining the loop goroutine), see FINDINGS.txt. Trusted: JSON payload ids identify alerts; the fake's entry order is the order of reception.",
 		DesignRef: "DESIGN.md §5 C46",
 		Rule:      "case = one generated scenario (lockstep: 12–40 steps of send/answer/park/set change/reload and a final Stop; free: 1–3 concurrent producers with 4–25 Send calls each, optional changer and Stop at a PRNG point); non-trivial iff at least two requests reached the fakes and an overflow, a failed request or a Stop with queued alerts / during sending occurred; distinct by scenario transcript",
 		Assumptions: []string{
